@@ -400,9 +400,19 @@ func c01(p *an.Prog, r *an.R, tier string) {
 						return rs.name
 					}
 				}
+				if wr := wrapperReason(p, info, cond, truth); wr != "" {
+					return wr // the test sits in a small predicate helper
+				}
 				c := ast.Unparen(cond)
 				if u, ok := c.(*ast.UnaryExpr); ok && u.Op == token.NOT {
 					return why(u.X, !truth)
+				}
+				if be, ok := c.(*ast.BinaryExpr); ok && ((be.Op == token.LOR && !truth) || (be.Op == token.LAND && truth)) {
+					// both operands are known (false resp. true): either may give the reason
+					if a := why(be.X, truth); a != "" {
+						return a
+					}
+					return why(be.Y, truth)
 				}
 				if be, ok := c.(*ast.BinaryExpr); ok && ((be.Op == token.LOR && truth) || (be.Op == token.LAND && !truth)) {
 					a, b := why(be.X, truth), why(be.Y, truth)
@@ -418,6 +428,10 @@ func c01(p *an.Prog, r *an.R, tier string) {
 			for _, gd := range guards {
 				if reason == "" {
 					reason = why(gd.cond, gd.truth)
+				}
+				if reason == "" {
+					// the same with bool locals expanded and small predicate helpers inlined
+					reason = why(an.InlinePredicates(info, an.ExpandBoolLocals(info, d.Decl.Body, gd.cond)), gd.truth)
 				}
 			}
 		}
